@@ -141,7 +141,12 @@ def run_threads(case) -> dict:
 
     _, seed, n, policy = case
     r = random.Random(seed)
-    jobs = [[(r.choice(("kek", "kek", "l2", "l1", "ctx")), r.randrange(100000)) for _ in range(r.randint(2, 5))] for _ in range(n)]
+    # every thread works with two or three requests and comes back to them (whatever is remembered about "the last request" must be
+    # remembered as a whole); different threads use different envelopes
+    jobs = []
+    for _ in range(n):
+        mine = [(r.choice(("kek", "kek", "l2", "l1", "ctx")), r.randrange(100000)) for _ in range(r.randint(2, 3))]
+        jobs.append([r.choice(mine) for _ in range(r.randint(3, 6))])
     world = W.World(seed)
     with world.installed():
         return threadpure.run("C02", "derivation", case, jobs, _derive_job, seed, policy)
@@ -315,8 +320,11 @@ class C02(common.Check):
             out.append(gen_history(rng, i))
         from checks import threadpure
 
-        for k in range(300 if tier == "quick" else 15000):
-            out.append(["threads", rng.getrandbits(30), 2 + k % 3, threadpure.policy_for(k, seams=False)])
+        for k in range(900 if tier == "quick" else 30000):
+            # (long uninterrupted stretches matter here as much as frequent switches: a thread parked at one line while another one
+            # runs a whole derivation)
+            pol = {"mode": "prob", "p": (0.003, 0.01, 0.03)[k % 3]} if k % 5 < 3 else threadpure.policy_for(k, seams=False)
+            out.append(["threads", rng.getrandbits(30), 2 + k % 2, pol])
         return out
 
     def run_case(self, case):
